@@ -36,8 +36,9 @@ ASSUMPTIONS = ['np.argsort modelled as a stable insertion sort: exact for distin
 
 QS = [0.16, 0.5, 0.84]
 
-# source tie (harness/translate.py, dialect 'obj' of harness/translate_obj.py -> lean/TaurexModel/Gen/SrcC09.lean, tied to
-# TaurexModel/Posterior.lean in lean/Props/C09Src.lean).  numpy's argsort / add.accumulate / interp are externals.
+# source tie (harness/translate.py, dialect 'obj' of harness/translate_obj.py and its extension 'objrec' of
+# harness/translate_objrec.py -> lean/TaurexModel/Gen/SrcC09.lean, tied to TaurexModel/Posterior.lean in
+# lean/Props/C09Src.lean).  numpy's argsort / add.accumulate / interp / argmax are externals.
 _QEXT = {'np.argsort': ('argsort', ['list'], 'natlist'), 'np.add.accumulate': ('accumulate', ['list'], 'list'),
          'np.interp': ('interp', ['list', 'list', 'list'], 'list')}
 _NEST = {'modes_array[nmode]': ('tracedata', 'list2'), 'modes_weights[nmode]': ('weights', 'list'),
@@ -49,7 +50,7 @@ SRC_SPECS = [
          params=dict(x='list', q='list', weights='list'), list_externals=_QEXT, returns='list'),
     # one iteration of the per-parameter loop of store_nestle_output: the record stored for fitted parameter `idx`
     dict(module='taurex/optimizer/nestle.py', cls='NestleOptimizer', func='store_nestle_output', lean='nestle_param',
-         dialect='obj', loop_body='enumerate(fit_param)', free=['samples', 'weights', 'mean', 'cov', 'max_weight'],
+         dialect='objrec', loop_body='enumerate(fit_param)', free=['samples', 'weights', 'mean', 'cov', 'max_weight'],
          params=dict(idx='nat', param_name='skip', samples='list2', weights='list', mean='list', cov='skip',
                      max_weight='nat'),
          result='param', dict_skip=['sigma'],           # 'sigma' = cov[idx], a row of nestle's covariance (pass-through)
@@ -57,10 +58,10 @@ SRC_SPECS = [
     # the same loop in store_nest_solutions / store_polychord_solutions, for one mode `nmode`: the dict display stored for
     # fitted parameter `idx` (the sampler's own statistics NEST_stats[...] are pass-through parameters)
     dict(module='taurex/optimizer/multinest.py', cls='MultiNestOptimizer', func='store_nest_solutions', lean='multinest_param',
-         dialect='obj', loop_body='enumerate(self.fit_names)', free=[], params=dict(idx='nat', param_name='skip'),
+         dialect='objrec', loop_body='enumerate(self.fit_names)', free=[], params=dict(idx='nat', param_name='skip'),
          attrs=_NEST, result='{}'),
     dict(module='taurex/optimizer/polychord.py', cls='PolyChordOptimizer', func='store_polychord_solutions',
-         lean='polychord_param', dialect='obj', loop_body='enumerate(self.fit_names)', free=[],
+         lean='polychord_param', dialect='objrec', loop_body='enumerate(self.fit_names)', free=[],
          params=dict(idx='nat', param_name='skip'), attrs=_NEST, result='{}'),
     # one iteration of the per-parameter loop of compute_derived_trace: the gathered trace / weights are put back into
     # sample order (`[restore]`) and summarised by the same quantile rule
@@ -71,6 +72,30 @@ SRC_SPECS = [
                 "mpi.allreduce(w, op='SUM')": ('gathered_w', 'list')},
          list_externals=dict(_QEXT, **{'np.average': ('average', ['list', 'list'], 's', ('weights',), {'axis': '0'})}),
          result='derived'),
+    # the WHOLE store_nestle_output (dialect 'objrec' of harness/translate_objrec.py): the nested dict it returns as a flat
+    # record (components named by their key paths, `nestle_store_keys`); `weights.argmax()` is the external `argmax`, the
+    # per-parameter loop is `nestle_param` above mapped over the fit names (the dict `fitparams` as its (key, value) stores)
+    dict(module='taurex/optimizer/nestle.py', cls='NestleOptimizer', func='store_nestle_output', lean='nestle_store',
+         callname='store_nestle_output/whole', dialect='objrec', params=dict(result='skip'),
+         attrs={'result.logz': ('logz', 's'), 'result.logzerr': ('logzerr', 's'), 'result.h': ('peakiness', 's'),
+                'result.samples': ('result_samples', 'list2'), 'result.weights': ('result_weights', 'list'),
+                'self.fit_names': ('fit_names', 'objlist:Name')},
+         tuples={'nestle.mean_and_cov(samples, weights)': [('nestle_mean', 'list'), ('nestle_cov', 'skip')]},
+         nat_methods={'argmax': 'argmax'}, loops={'enumerate(fit_param)': 'store_nestle_output'},
+         result='nestle_output', dict_skip=['covariance']),
+    # one iteration of the per-mode loop of store_nest_solutions / store_polychord_solutions: the dict `mydict` stored for
+    # mode `nmode` — its `tracedata`, `weights` and `fit_params` (the per-parameter loop above mapped over the fit names);
+    # 'type' is a string tag, 'local_logE' the sampler's own evidence pair (pass-through)
+    dict(module='taurex/optimizer/multinest.py', cls='MultiNestOptimizer', func='store_nest_solutions', lean='multinest_mode',
+         callname='store_nest_solutions/mode', dialect='objrec', loop_body='range(len(modes))', free=[],
+         params=dict(nmode='skip'), attrs=dict(_NEST, **{'self.fit_names': ('fit_names', 'objlist:Name')}),
+         loops={'enumerate(self.fit_names)': 'store_nest_solutions'}, result='mydict', dict_skip=['type', 'local_logE']),
+    dict(module='taurex/optimizer/polychord.py', cls='PolyChordOptimizer', func='store_polychord_solutions',
+         lean='polychord_mode', callname='store_polychord_solutions/mode', dialect='objrec',
+         loop_body='range(num_clusters)', loop_target='nmode', free=[], params=dict(nmode='skip'),
+         attrs=dict(_NEST, **{'self.fit_names': ('fit_names', 'objlist:Name')}),
+         loops={'enumerate(self.fit_names)': 'store_polychord_solutions'}, result='mydict',
+         dict_skip=['type', 'local_logE']),
 ]
 
 
@@ -455,7 +480,7 @@ def eval_fit(ctx, spec):
                               'stored solution spectrum is not the forward model at the MAP binned to the observation',
                               case, dict(mode=j, stored=got[:4], expected=exp_sp[:4]))
             # ---- stored profiles = those of the median solution
-            if spec['model']['kind'] == 'tm':
+            if True:                        # real models and the polynomial fixture (whose store_contributions fails)
                 write(medvec)
                 model2.model(cutoff_grid=False)
                 exp_prof = model2.generate_profiles()
